@@ -45,6 +45,7 @@ def plan(tier: str) -> list[dict]:
                                  gated_fork=(2, 12, 300), gated_spawn=(1, 3, 40))) + dagprop.exhaustive_jobs(tier, 4)
     jobs += [{'engine': 'kill-focus:fork', 'n': 16 if q else 400, 'hashseed': i} for i in range(2)]
     jobs += [{'engine': 'kill-focus:spawn', 'n': 3 if q else 40, 'hashseed': 3}]
+    jobs += [{'engine': 'control-flow-exceptions', 'hashseed': 5}]
     jobs += [{'engine': 'executor-machine', 'n': 12 if q else 400, 'steps': 14 if q else 30, 'hashseed': 4}]
     return jobs
 
@@ -103,6 +104,10 @@ def run_job(rec: core.Recorder, job: dict, seed: int) -> None:
     if job['engine'] == 'executor-machine':
         from pbt import execmachine
         execmachine.run_machines(rec, 'executor-machine', 'C11:', job['n'], job['steps'], seed)
+        return
+    if job['engine'] == 'control-flow-exceptions':
+        from pbt.props import c10
+        core.run_cases(rec, 'control-flow-exceptions', [c for c in c10.control_flow_cases() if c['lab']['continue_on_failure']], check)
         return
     if job['engine'].startswith('kill-focus'):
         core.run_hypothesis(rec, job['engine'], kill_focus(job['engine'].split(':')[1]), check, max_examples=job['n'], seed=seed, shrink=False)
